@@ -1,4 +1,64 @@
-From HP Require Import Base.Prelude Base.Path KV.Types KV.Run Compose.Sub.
-Example C07_smoke : sub_route (S "a") (S "x/y") = S "a/x/y".
-Proof. vm_compute. reflexivity. Qed.
-Print Assumptions C07_smoke.
+(* C07 -- A Sub view is indistinguishable from the subtree and cannot reach outside it.
+   Model: [sstep base] = one operation on Sub(fs, base) for the generic subFS over a key-value FS
+   (Compose/Sub.v), [sub_route] = subFS.Mount.  The equivalence with the operation on fs at base/name is
+   how the model is built (and is checked against the code by running both on identical copies);
+   what is PROVED is where a view can reach: the name it hands to the underlying FS.
+   Rename through the generic view is refused with ErrNotImplemented (refuted below); Sub of a mount FS
+   above a mount point hides the mounts (known finding, harness only). *)
+From HP Require Import Base.Prelude Base.Path Base.PathProofs KV.Types KV.FS KV.Handle KV.Run KV.GateProofs
+  Compose.Mount Compose.Sub Compose.GateCompose.
+Open Scope N_scope.
+
+(* The underlying name is exactly base joined with the name ... *)
+Theorem C07_view_addresses_base_joined_with_name : forall base name,
+  valid_path base = true -> valid_path name = true ->
+  sub_route base name = if str_eqb base dot then name else if str_eqb name dot then base else base ++ slash :: name.
+Proof. intros base name Hb Hn. unfold sub_route. rewrite Hn. apply join2_valid; assumption. Qed.
+Print Assumptions C07_view_addresses_base_joined_with_name.
+
+(* ... which is the base directory itself or lies below it: nothing outside can be named through the view
+   (a ".." element cannot pass ValidPath). *)
+Theorem C07_view_confined_to_its_subtree : forall base name,
+  valid_path base = true -> valid_path name = true -> base <> dot ->
+  sub_route base name = base \/ has_prefix (sub_route base name) (base ++ [slash]) = true.
+Proof. intros base name Hb Hn Db. unfold sub_route. rewrite Hn. apply join2_confined; assumption. Qed.
+Print Assumptions C07_view_confined_to_its_subtree.
+
+Theorem C07_underlying_name_is_valid : forall base name,
+  valid_path base = true -> valid_path name = true -> valid_path (sub_route base name) = true.
+Proof. intros base name Hb Hn. unfold sub_route. rewrite Hn. apply join2_valid_result; assumption. Qed.
+Print Assumptions C07_underlying_name_is_valid.
+
+(* An invalid name reaches the underlying FS unchanged and is refused there: nothing changes. *)
+Theorem C07_invalid_name_changes_nothing : forall base st o p,
+  names_of o = [p] -> valid_path p = false -> (forall q f m, o <> Open q f m) ->
+  fst (sstep base st o) = st /\ snd (sstep base st o) = VErr (PathErr p EINVAL).
+Proof. exact sub_gate. Qed.
+Print Assumptions C07_invalid_name_changes_nothing.
+
+(* Every one-name operation on the view IS the operation on the underlying FS at the joined name, with
+   the error paths translated back (by construction of the model; tied to the code by the correspondence). *)
+Theorem C07_view_operation_is_the_parent_operation : forall base st p perm,
+  sstep base st (Mkdir p perm) =
+    (fst (step st (Mkdir (sub_route base p) perm)),
+     map_obs_err (strip_err p (sub_route base p)) (snd (step st (Mkdir (sub_route base p) perm))))
+  /\ sstep base st (Remove p) =
+    (fst (step st (Remove (sub_route base p))),
+     map_obs_err (strip_err p (sub_route base p)) (snd (step st (Remove (sub_route base p))))).
+Proof.
+  intros base st p perm. unfold sstep, sroute1.
+  split; match goal with |- context [step st ?x] => destruct (step st x) end; reflexivity.
+Qed.
+Print Assumptions C07_view_operation_is_the_parent_operation.
+
+(* Refuted: Rename through the generic view is not the parent's Rename. *)
+Theorem C07_rename_through_view_refuted : forall base st a b,
+  sstep base st (Rename a b) = (st, VErr (LinkErr a b ENOSYS)).
+Proof. reflexivity. Qed.
+Print Assumptions C07_rename_through_view_refuted.
+
+Example C07_nonvacuous :
+  sub_route (S "a/b") (S "x/y") = S "a/b/x/y" /\ sub_route (S "a") dot = S "a" /\ sub_route dot (S "x") = S "x"
+  /\ valid_path (S "../x") = false.
+Proof. vm_compute. auto. Qed.
+Print Assumptions C07_nonvacuous.
